@@ -140,8 +140,8 @@ class Mon:
         self.cs = cfg["cache_size"]
         self.span = built.dom[1] - built.dom[0]
 
-    def call(self, ta, tb, U, A, faults, idx):
-        res = self.ex.raw(ta, tb, U, A, faults, idx)
+    def call(self, ta, tb, U, A, faults, idx, targ=None):
+        res = self.ex.raw(ta, tb, U, A, faults, idx, targ)
         self.calls += 1
         if self.ex.max_depth > DEPTH_BOUND:
             raise Violation("depth", {"depth": self.ex.max_depth, "ta": fx(ta), "tb": fx(tb)}, idx)
@@ -196,7 +196,7 @@ def _run_machine(case, log, probes):
             mon.ex.point(xf(op["t"]), op.get("faults"), i)
             continue
         ta, tb = xf(op["ta"]), xf(op["tb"])
-        res = mon.call(ta, tb, op["U"], op["A"], op.get("faults"), i)
+        res = mon.call(ta, tb, op["U"], op["A"], op.get("faults"), i, op.get("targ"))
         for _ in range(op.get("rep", 0)):
             mon.call(ta, tb, op["U"], op["A"], None, i)
         err = bm.shape_ok(cfg, res)
